@@ -160,6 +160,7 @@ func (c *Ctx) LiveNsx(files map[string]string, node *nsxdev.Node, o PanOpts) *Ns
 	r.Res.Stderr = strings.ReplaceAll(r.Res.Stderr, w.Dir, "BASEDIR")
 	c.Res.SimSeconds += r.EndAt.Seconds()
 	c.EventHash(log.Hash())
+	dumpLog(log.Hash(), log.Copy())
 	return r
 }
 
@@ -201,8 +202,17 @@ func nsxConvergeFn(prop string) RunFunc {
 	return func(c *Ctx, tp *tape.Tape, _ map[string]any) *Failure {
 		cs := GenNsxCase(tp)
 		node := cs.Node()
-		foreignBefore := node.Foreign()
 		o := PanOpts{Front: []string{"do-approve", "drc"}[tp.Next(2)], Timeout: 60, Backup: tp.Chance(1, 6)}
+		return nsxJudgeConverge(c, cs, node, o, prop, "")
+	}
+}
+
+// nsxJudgeConverge runs one approve session onto node and applies the oracles
+// of C04 (or C07 / C08).  pre prefixes the oracle clause in the key (C10:
+// "resume-").
+func nsxJudgeConverge(c *Ctx, cs *NsxCase, node *nsxdev.Node, o PanOpts, prop, pre string) *Failure {
+	{
+		foreignBefore := node.Foreign()
 		r := c.LiveNsx(cs.Files, node, o)
 		fail := func(key, msg string) *Failure {
 			in := cs.Input()
@@ -218,7 +228,7 @@ func nsxConvergeFn(prop string) RunFunc {
 				}
 			}
 			in["script"] = reqs
-			return &Failure{Key: "NSX|" + key, Msg: msg, Input: in, Log: tail(r.Log, 60)}
+			return &Failure{Key: "NSX|" + pre + key, Msg: msg, Input: in, Log: tail(r.Log, 60)}
 		}
 		if r.Trouble != "" {
 			return fail("no-exit", r.Trouble)
@@ -323,13 +333,116 @@ func nsxConvergeFn(prop string) RunFunc {
 		}
 		if !strings.Contains(r2.Res.Stderr, "comp: device unchanged") {
 			cmp := r2.Files["policies/p1/log/router.cmp"]
-			return fail("recompare-nonempty|"+firstWords(firstLine(cmp), 1), "second compare still reports changes: "+trunc200(firstLine(cmp)))
+			kind := firstWords(firstLine(cmp), 1)
+			// Does a second approve change anything but names?  (Policies in
+			// canonical form and the multiset of group contents stay the same.)
+			n3 := node.Clone()
+			r3 := c.LiveNsx(cs.Files, n3, PanOpts{Front: "drc", Timeout: 60})
+			if r3.Res.Exit == 0 && r3.Res.Panic == "" && nsxSemantics(n3) == nsxSemantics(node) {
+				kind = "names-only"
+			}
+			f := fail("recompare-nonempty|"+kind, "second compare still reports changes: "+trunc200(firstLine(cmp)))
+			if os.Getenv("VERIF_DEBUG") != "" {
+				fmt.Println("SCRIPT2\n" + cmp)
+			}
+			f.Input["script2"] = strings.Split(cmp, "\n")
+			return f
 		}
 		return nil
 	}
 }
 
+// c10Nsx: an approve session is cut by a dropped connection at every change
+// request in turn; a second session on the partially changed manager must
+// converge like any other.
+func c10Nsx(c *Ctx, tp *tape.Tape, extra map[string]any) *Failure {
+	cs := GenNsxCase(tp)
+	o := PanOpts{Front: []string{"do-approve", "drc"}[tp.Next(2)], Timeout: 60}
+	base := cs.Node()
+	rb := c.LiveNsx(cs.Files, base, o)
+	var ks []int
+	for _, rec := range rb.Node.Transcr {
+		if rec.Class == "script" {
+			if rec.Reject != "" {
+				c.Count("skipped_rejected_script", 1)
+				return nil
+			}
+			ks = append(ks, rec.K)
+		}
+	}
+	if rb.Res.Exit != 0 || rb.Trouble != "" || rb.Res.Panic != "" || len(ks) == 0 {
+		c.Count("base_not_usable", 1)
+		return nil
+	}
+	c.NonTrivial(cs.A.NetspocJSON(), cs.Files["router"])
+	only := -1
+	if extra != nil {
+		only = toInt(extra["cut"])
+	}
+	for _, k := range ks {
+		if only >= 0 && k != only {
+			continue
+		}
+		n := cs.Node()
+		n.Faults = []nsxdev.Fault{{At: k, Kind: "transport-error"}}
+		r1 := c.LiveNsx(cs.Files, n, o)
+		c.Res.Evaluations++
+		c.Count("cuts", 1)
+		if r1.Res.Exit == 0 {
+			// C09's subject; nothing to resume.
+			c.Count("cut_run_exit_0", 1)
+			continue
+		}
+		n2 := n.Clone()
+		if f := nsxJudgeConverge(c, cs, n2, PanOpts{Front: "drc", Timeout: 60}, "C04", "resume-"); f != nil {
+			f.Extra = map[string]any{"cut": k}
+			f.Input["cut"] = fmt.Sprintf("connection closed at request %d of the first session", k)
+			if !c.NoteKnown(f.Key) {
+				return f
+			}
+		}
+		if c.TimeUp() {
+			return nil
+		}
+	}
+	return nil
+}
+
 func init() {
 	nsxConverge = nsxConvergeFn
 	Registry["C04"] = nsxConvergeFn("C04")
+}
+
+// nsxSemantics renders what the Netspoc part of the manager means: every
+// Netspoc policy in canonical form (groups by content) and the multiset of
+// the contents of all Netspoc groups and services.
+func nsxSemantics(n *nsxdev.Node) string {
+	var l []string
+	for _, p := range n.Policies {
+		if strings.HasPrefix(p.ID, "Netspoc") {
+			l = append(l, p.ID+": "+strings.Join(n.CanonPolicy(p.ID), " ; "))
+		}
+	}
+	sort.Strings(l)
+	var g []string
+	for _, o := range n.Groups {
+		if id, _ := o["id"].(string); strings.HasPrefix(id, "Netspoc") {
+			var addrs []string
+			if ex, ok := o["expression"].([]any); ok {
+				for _, e := range ex {
+					if em, ok := e.(map[string]any); ok {
+						if ia, ok := em["ip_addresses"].([]any); ok {
+							for _, a := range ia {
+								addrs = append(addrs, fmt.Sprint(a))
+							}
+						}
+					}
+				}
+			}
+			sort.Strings(addrs)
+			g = append(g, strings.Join(addrs, ","))
+		}
+	}
+	sort.Strings(g)
+	return strings.Join(l, "\n") + "\n--\n" + strings.Join(g, "\n")
 }
